@@ -5,6 +5,8 @@
 mod interpose;
 mod util;
 mod frag;
+mod value;
+mod wire;
 
 fn main() {
     let args: Vec<String> = std::env::args().collect();
@@ -14,6 +16,7 @@ fn main() {
     }
     match args[1].as_str() {
         "frag" => frag::run(&args[2..]),
+        "wire" => wire::run(&args[2..]),
         s => {
             eprintln!("unknown scenario {}", s);
             std::process::exit(2);
